@@ -15,11 +15,16 @@ import (
 
 // Spell selects how a field value v in [0,M) is written.
 //
-//	0 unsigned, 1 signed (v > M/2 printed as v-M), 2 a congruent spelling >= M or <= -M
+//	0 unsigned, 1 signed (v > M/2 printed as v-M), 2 a congruent spelling >= M or <= -M, 4 within 32 bits where possible
 func spellField(v, m int, spell int, r Rand) string {
 	switch spell {
 	case 1:
 		if v > m/2 {
+			return strconv.Itoa(v - m)
+		}
+	case 4:
+		// the spelling that stays within 32 bits whenever one exists: values from 2^31 on are written as v-M
+		if v >= 1<<31 {
 			return strconv.Itoa(v - m)
 		}
 	case 2:
@@ -93,7 +98,7 @@ var metaBlocks = [][]string{
 
 // comment lines between the instructions: plain ones, metadata keywords in the middle of the file, multi-byte text
 var midComments = []string{"; a comment, with 1 comma", "; a comment, with 1 comma", "; a comment, with 1 comma", ";redcode", ";redcode-94 verbose", ";name another name",
-	";author again", ";strategy goes on", ";assert 1", "; \ufffd replacement character, \u00e9\u6f22\U0001f600", ";;;", "; mov.i $ 0, $ 1"}
+	";author again", ";strategy goes on", ";assert 1", "; \ufffd replacement character, \u00e9\u6f22\U0001f600", ";;;", "; mov.i $ 0, $ 1", "; control characters in a comment: \x1a \x01 \x7f \x0b", ";\x1a", "; tab\tand more ; ; ;"}
 
 var lastComments = []string{"; the end", "; the end", ";", ";strategy", ";name", ";author", ";strategy ", ";assert 1"}
 
@@ -173,8 +178,11 @@ func Perturb(lines []string, set int, d Dialect, r Rand) string {
 		}
 		if set&PTrailing != 0 && r.Intn(2) == 0 {
 			l += " ; trailing " + strconv.Itoa(i)
-			if r.Intn(8) == 0 {
+			switch r.Intn(16) {
+			case 0, 1:
 				l += " \ufffd \u00e9\u6f22" // a genuine U+FFFD and other multi-byte text
+			case 2:
+				l += " \x1a\x01 ctrl" // control characters (a DOS end-of-file mark among them)
 			}
 		}
 		if set&PLongLines != 0 && r.Intn(3) == 0 {
@@ -214,7 +222,8 @@ type Account struct {
 func AccountLoadFile(text string) Account {
 	var a Account
 	// lines are terminated by \n; a last line without terminator is a line too
-	rest := text
+	// (a byte-order mark in front of the file is not content: a reader may or may not tolerate it)
+	rest := strings.TrimPrefix(text, "\ufeff")
 	for len(rest) > 0 {
 		var line string
 		if i := strings.IndexByte(rest, '\n'); i >= 0 {
